@@ -20,6 +20,7 @@ From V.C15 Require Model Engine.
 From V.C17 Require Model Proofs Timed Ingress.
 From V.gen Require C16Tables.
 From V.Ts Require Model Proofs Answers.
+From V.Link Require C16_Time.
 From V.C16 Require Import Model Proofs Obl Bound Chan Exec Time Compose Comp CompTime EngineRef HandleModel Handle Quorum Link.
 Import ListNotations.
 Open Scope N_scope.
@@ -1017,3 +1018,24 @@ Proof.
       split; [reflexivity |]. split; [| exact I]. right. vm_compute. reflexivity.
     + vm_compute. split; reflexivity.
 Qed.
+
+(* ---- the bound D and the layers below: what can NOT be derived (coq/Link/C16_Time.v) ----
+   `timed D` needs a bound on how long an open_substream stays unanswered. The TransportService model of
+   C08 / C09 has a logical clock, but it times only the keep-alive downgrade; an open in flight has no
+   deadline there and holds the connection (C09_busy_keeps_alive). For EVERY D there is a history inside
+   C08's contract in which an accepted open (id 0, command on connection 1) is still in flight and
+   unanswered at time D, with a strong sender left on the connection's command channel. So D for opens
+   does not follow from C08 + C09; it is the connection task's substream open timeout (an untimed event
+   of the C07 model). For dials the manager / transport models have no clock at all (C05's progress
+   theorems are existential over the environment's schedule). See the header of coq/Link/C16_Time.v for
+   the statement of what a formal link would need. *)
+Theorem C16_service_open_wait_unbounded :
+  forall D,
+  V.Ts.Model.feasible 2 V.Ts.Model.env0 (V.Ts.Model.init true 1000 0) (V.Link.C16_Time.wait_tr D) = true /\
+  In (V.Ts.Model.OCmd 1 0) (concat (V.Ts.Model.run (V.Ts.Model.init true 1000 0) (V.Link.C16_Time.wait_tr D))) /\
+  V.Ts.Model.pfind 0 (V.Ts.Model.s_pend (V.Ts.Model.final (V.Ts.Model.init true 1000 0) (V.Link.C16_Time.wait_tr D))) = Some (0, 1) /\
+  V.Ts.Model.s_now (V.Ts.Model.final (V.Ts.Model.init true 1000 0) (V.Link.C16_Time.wait_tr D)) = D /\
+  V.Ts.Answers.ans_ids (concat (V.Ts.Model.run (V.Ts.Model.init true 1000 0) (V.Link.C16_Time.wait_tr D))) = [] /\
+  0 < V.Ts.Model.strong (V.Ts.Model.final (V.Ts.Model.init true 1000 0) (V.Link.C16_Time.wait_tr D)) 1.
+Proof. exact V.Link.C16_Time.service_open_wait_unbounded. Qed.
+Print Assumptions C16_service_open_wait_unbounded.
